@@ -1,7 +1,7 @@
 (* XrefMerge.v -- the revision-merge core of the loader: src/xref.rs (Xref, Xref::merge, max_id) and
-   Reader::read of src/reader.rs (the Prev loop with `already_seen`, the XRefStm side branch, the
-   Size correction, loading the objects of all Normal entries, expanding object streams
-   "add, never replace").
+   Reader::read of src/reader.rs (the Prev loop with `already_seen`, merge_xref_stream for the XRefStm
+   key of every trailer of the chain, the Size correction, loading the objects of all Normal entries,
+   expanding object streams "add, never replace", and never a second generation of a number).
 
    Byte-level decoding of one cross-reference section is NOT modelled here (Model/Xref.v, property
    C02).  A file is given by its LAYOUT: which section parser::xref_and_trailer finds at which
@@ -94,9 +94,27 @@ Definition K_ObjStm := Eval cbv in bs "ObjStm".
 
 Definition zmem (p : Z) (l : list Z) : bool := existsb (Z.eqb p) l.
 
-(* The Prev loop (reader.rs 246-275).  [tr] is the trailer of the NEWEST section throughout: the
-   XRefStm key is looked up in -- and removed from -- that trailer, never in the trailer of the
-   section just read.  One unit of fuel per section read through Prev. *)
+(* Reader::merge_xref_stream (commit "fix: ... XRefStm ..."): [start] is the value of the XRefStm key of a
+   trailer.  The entries of the cross-reference stream found there are merged into the table of the section
+   that trailer belongs to (insert-if-absent, so after that section's own entries). *)
+Definition merge_stm (L : layout) (x : xref) (start : option obj) : lres xref :=
+  match start with
+  | Some (OInt q) =>
+    if (q <? 0)%Z || (l_buflen L <? q)%Z then LErr EStreamStart
+    else
+      match sec_at L q with
+      | None => LErr EInvalidTrailer
+      | Some (sx, _) => LOk (xmerge x sx)
+      end
+  | _ => LOk x
+  end.
+
+(* The Prev loop.  [tr] is the trailer of the NEWEST section throughout.  Every iteration first
+   merges the cross-reference stream named by the XRefStm key of [tr] (the key is removed, so this
+   happens in the first iteration only: BEFORE the section named by Prev is merged), then reads the
+   section named by Prev, merges the cross-reference stream its own trailer names by XRefStm into
+   it, and merges the result.  Without a Prev the loop body never runs and the XRefStm key of the
+   newest trailer stays where it is, unread.  One unit of fuel per section read through Prev. *)
 Fixpoint prev_loop (fuel : nat) (L : layout) (x : xref) (tr : dict) (seen : list Z) (prev : option obj)
   : lres (xref * dict) :=
   match prev with
@@ -108,22 +126,19 @@ Fixpoint prev_loop (fuel : nat) (L : layout) (x : xref) (tr : dict) (seen : list
       | S f =>
         if (p <? 0)%Z || (l_buflen L <? p)%Z then LErr EPrevStart
         else
-          match sec_at L p with
-          | None => LErr EInvalidTrailer
-          | Some (px, ptr) =>
-            let x1 := xmerge x px in
-            let next := dict_get ptr K_Prev in
-            match dict_get tr K_XRefStm with
-            | Some (OInt q) =>
-              if (q <? 0)%Z || (l_buflen L <? q)%Z then LErr EStreamStart
-              else
-                match sec_at L q with
-                | None => LErr EInvalidTrailer
-                | Some (sx, _) =>
-                  prev_loop f L (xmerge x1 sx) (dict_swap_remove tr K_XRefStm) (p :: seen) next
-                end
-            | _ => prev_loop f L x1 (dict_swap_remove tr K_XRefStm) (p :: seen) next
+          match merge_stm L x (dict_get tr K_XRefStm) with
+          | LOk x1 =>
+            match sec_at L p with
+            | None => LErr EInvalidTrailer
+            | Some (px, ptr) =>
+              match merge_stm L px (dict_get ptr K_XRefStm) with
+              | LOk px1 => prev_loop f L (xmerge x1 px1) (dict_swap_remove tr K_XRefStm) (p :: seen) (dict_get ptr K_Prev)
+              | LErr e => LErr e
+              | LOutOfFuel => LOutOfFuel
+              end
             end
+          | LErr e => LErr e
+          | LOutOfFuel => LOutOfFuel
           end
       end
   | _ => LOk (x, tr)
@@ -190,12 +205,21 @@ Definition named_by (t : xmap) (k : N) (io : oid * obj) : bool :=
 Definition or_insert_all (m : objmap) (l : list (oid * obj)) : objmap :=
   fold_left (fun m io => or_insert m (fst io) (snd io)) l m.
 
+(* pass B since commit "fix: ... generation ...": a member is added only when no object of its NUMBER is
+   present yet, under whatever generation: objects.range((n, 0)..=(n, u16::MAX)).next().is_none() *)
+Definition has_number (m : objmap) (n : N) : bool := existsb (fun io => (fst (fst io) =? n)%N) m.
+Definition add_new_number (m : objmap) (id : oid) (o : obj) : objmap :=
+  if has_number m (fst id) then m else insert m id o.
+Definition add_new_numbers (m : objmap) (l : list (oid * obj)) : objmap :=
+  fold_left (fun m io => add_new_number m (fst io) (snd io)) l m.
+
 Definition load_objects (L : layout) (encrypted : bool) (t : xmap) : objmap :=
   let r := fold_left (load_entry L encrypted) t ([], []) in
   (* pass A: members the table places in exactly this container, blocks in key order *)
   let a := fold_left (fun m b => or_insert_all m (filter (named_by t (fst b)) (snd b))) (snd r) (fst r) in
-  (* pass B, "only add entries, but never replace entries": the remaining members, same order *)
-  fold_left (fun m b => or_insert_all m (filter (fun io => negb (named_by t (fst b) io)) (snd b))) (snd r) a.
+  (* pass B, "only add entries, but never replace entries": the remaining members, same order, and only
+     object numbers that are not present yet *)
+  fold_left (fun m b => add_new_numbers m (filter (fun io => negb (named_by t (fst b) io)) (snd b))) (snd r) a.
 
 Record loaded := { ld_xref : xref; ld_trailer : dict; ld_max_id : N; ld_start : N; ld_objects : objmap }.
 
